@@ -152,3 +152,20 @@ PROPS['C08'] = dict(
     technique='reference-model monitor over seeded limit-biased inputs; release + debug-assertion builds',
     design_ref='DESIGN.md section 4, C08',
 )
+
+PROPS['C12'] = dict(
+    sub='c12',
+    quick=[S('rel'), S('dbg')],
+    thorough=[S('rel'), S('dbg')],
+    rule='Span: seeded sequences of 1-4 fallible setter calls (unit, value in {+-limit, +-(limit-1), +-(limit+1), 0, +-1, i64::MIN/MAX, seeded}) observed after every step through all getters, signum/is_*, negate, unary minus, abs, '
+         'fieldwise equality, conversion to SignedDuration/std Duration, then checked_mul by {0,+-1,+-2,3,10,i64::MIN/MAX, seeded, the multiplier that lands a unit on its limit} against a (sign, magnitudes[10]) model with the documented sign rule; every unit alone at its boundary values x every second unit (enumerated). '
+         'SignedDuration: seeded (a, b, k:i32) with a,b biased to MIN/MAX/0/day multiples against i128 nanosecond arithmetic for 30 observers (views, add/sub/mul/div/neg/abs, saturating forms, conversions, float views); unit constructors at their overflow boundaries; '
+         'floats: NaN, +-inf, subnormals, +-2^63 and neighbours, half-nanosecond ties, powers of two, seeded bit patterns, compared with the exact rational value of the float. '
+         'distinct_nontrivial = distinct multi-setter sequences + distinct (a,b,k) triples (every third) + distinct float bit patterns',
+    floors={'quick': {'evaluations': 500000000, 'distinct_nontrivial': 10000000}, 'thorough': {'evaluations': 5000000000, 'distinct_nontrivial': 30000000}},
+    assumptions=COMMON_ASSUME + ['try_from_secs_f32 is allowed the precision of an f32 significand (its documentation shows the loss); f64 conversions must be within 1 ns of the exact rational value; mul_f64/div_f64/as_secs_f64 within 1e-14 relative'],
+    level_text='Reference-model monitoring: every mutation and observer of Span and SignedDuration is executed on seeded limit-biased inputs in both build modes and compared with a (sign, magnitudes) model resp. exact i128 nanosecond arithmetic, including exactly-when overflow is reported and sign coherence of every produced value.',
+    level_note='Trusted base: the 40-line span model and i128 arithmetic in harness/src/c12.rs; exact decomposition of IEEE floats. The documented panics of the infallible constructors count as reported overflow.',
+    technique='reference-model monitor (unit-vector span model, i128 nanoseconds, exact float decomposition) over seeded limit-biased inputs; release + debug-assertion builds',
+    design_ref='DESIGN.md section 4, C12',
+)
